@@ -15,4 +15,8 @@ TEXT = {
     level='Proved for every rank, name tuple and stacking index: Partitioned.add_axis inserts the declared partition name exactly at position k (padding with None), remove_axis removes exactly position k, remove after add restores the names (lemma over the two contracts), get_partition_spec is PartitionSpec of exactly the names. VCs from the real method bodies incl. the padding while-loop (invariant + decreases).',
     note='Trusted: VC generator semantics, dataclass replace summary, PartitionSpec as uninterpreted constructor, solvers. Not decided: numerics of boxed variables. Native evaluation of the same contracts on small name tuples is bounded, not proof.',
     technique='contract-based deductive verification (own VC generator over the real AST + z3/cvc5)'),
+  'C20': dict(
+    level='Proved from the real source: _invert_perm inverts every permutation (incl. python-negative entries); scan_in_dim transpose_in/out hand mutually inverse permutations to transpose; prefetch_to_device yields exactly put(src[i]) for every remaining source item, in order, once, then stops (generator with ghost output trace, two loop invariants, for every size >= 1); PrefetchIterator.__next__ delivers the buffer HEAD whenever the buffer is non-empty and reports the stored error / StopIteration only on an empty buffer, the producer only appends the item just taken at the tail or stores the error while clearing _active, close only clears _active -- each critical section verified under the monitor rule (protected state havocked at every acquisition), plus a structural lock-discipline obligation over the class body.',
+    note='Trusted: VC generator semantics; Condition-as-monitor and Thread.start-as-publication; summaries of islice/deque/np.delete/np.arange/tree_map; solvers. Interleaving coverage is by the monitor rule (paper composition), not by enumeration. Not decided: pad_shard_unpad numerics, scan_in_dim vs nested loop, jnp one-liners.',
+    technique='contract-based deductive verification (own VC generator over the real AST + z3/cvc5), monitor invariants for the threaded class'),
 }
